@@ -118,7 +118,13 @@ def active_color(chk, prog):
     ATTR = prog.adt_path("rustzx_core", "ZXAttribute")
     COLOR = prog.adt_path("rustzx_core", "ZXColor")
     BR = prog.adt_path("rustzx_core", "ZXBrightness")
-    fn = prog.fn(prog.fn_path("rustzx_core", "ZXAttribute::active_color"))
+    try:
+        fn = prog.fn(prog.fn_path("rustzx_core", "ZXAttribute::active_color"))
+    except KeyError:
+        # no such helper (any more): the render-loop rule judges the colour of every pixel from the attribute byte,
+        # the bitmap bit and the flash phase with whatever helpers there are inlined
+        chk.observe("ZXAttribute::active_color does not exist; pixel colour selection is judged by the render-loop rule alone")
+        return
     INK, PAPER = 2, 5
     fi = lambda n: prog.field_index(ATTR, n)
     for state in (0, 1):
@@ -141,13 +147,13 @@ def active_color(chk, prog):
                           "pixel=%d flash=%d phase=%d selects %s; documented %s" % (state, flash, phase, "ink" if isinstance(r.ret, Agg) and r.ret.variant == INK else "paper",
                                                                                    "ink" if want == INK else "paper"))
                 chk.count("active-color-rows")
-    chk.floor("active-color-rows", 8)
 
 
 def render_loop(chk, prog, names):
     SCR = prog.adt_path("rustzx_core", "ZXScreen")
     FB = ("param", "FB", 0)
     w = Walker(prog, loop_bound=1, max_paths=5000)
+    w.branch_loop_bound = 8      # one cell (one iteration of the cell loop), but a data-dependent branch per pixel is fine
     FC = prog.fn_path("rustzx_core", "BlocksCount::from_clocks")
     PF = prog.fn_path("rustzx_core", "BlocksCount::passed_from")
     w.opaque_paths |= {FC, PF}
